@@ -224,7 +224,7 @@ def cases(tier, seed):
     # exhaustive families, parallelised over the first refinement call
     fams = [(1, 3, 2), (1, 2, 3)] if tier == 'quick' else [(1, 2, 3), (1, 3, 3), (1, 4, 3), (2, 2, 2)]
     for (dim, n0, depth) in fams:
-        ps = (1, 2) if tier == 'quick' else (1, 2, 3)
+        ps = ((1, 2, 3) if (dim, n0, depth) == (1, 3, 2) else (1, 2)) if tier == 'quick' else (1, 2, 3, 4)
         for p in ps:
             for disp in (None, 1, 2):
                 for trunc in ((False,) if tier == 'quick' else (False, True)):
